@@ -16,7 +16,7 @@ namespace Opcua.Props.C01
 open Opcua Opcua.Codec
 
 /-- the codec as the real code runs it: no allocation budget, the generated extension object registry -/
-def env : Env := ⟨none, Gen.extObjTypes⟩
+def env : Env := { limit := none, exts := Gen.extObjTypes }
 
 /-- **Round trip.**  Every well-typed value of every type encodes, and decoding the
     bytes (followed by anything) yields the normalised value and consumes exactly
